@@ -27,6 +27,8 @@ type chainCfg struct {
 	// PanicSig: when set, a panic of the real application during block execution is a violation with this
 	// signature (a block sequence every node would crash on); otherwise it is an error of the harness run
 	PanicSig string
+	// JobArgs are passed to every job (Job.Args)
+	JobArgs map[string]string
 }
 
 type chainReplay struct {
@@ -90,7 +92,7 @@ func chainExplore(c *ev.Ctx, cfg *chainCfg) chainStats {
 		for _, i := range hist {
 			bl = append(bl, cfg.Menu[i])
 		}
-		return Job{Env: cfg.Env, Blocks: bl, Want: cfg.Want}
+		return Job{Env: cfg.Env, Blocks: bl, Want: cfg.Want, Args: cfg.JobArgs}
 	}
 	if !chainSelfCheck(c, mkJob([]int{0})) {
 		st.Complete = false
